@@ -151,7 +151,7 @@ def show_expr(case, obs):
 
 
 def nontrivial(case, obs):
-    return (case["config"] in ("aio", "aiot", "pool", "poole", "threads") and case["prog"]["op"] == "mutation"
+    return (case["config"] in ("aio", "aiot", "pool", "poole", "prom", "threads") and case["prog"]["op"] == "mutation"
             and len(case["prog"]["fields"]) >= 2)
 
 
